@@ -42,6 +42,8 @@ def scenario(rng, sid, focus, big=False):
         sc["closeOrder"] = co
         if focus == "C14":
             sc["comps"] = rng.randint(0, 1)
+    for r_ in sc["runners"]:
+        r_["zero"] = rng.random() < 0.3      # realised by a field-less runner type (at most one per class; the harness falls back otherwise)
     for i, ld in enumerate(sc["loaders"]):
         ld["doc"] = "k%d: %d\n" % (i, i)
     return sc
